@@ -97,7 +97,8 @@ class AssembleGeneral(Module):
         if self.bc is not None:
             dgdmat[self.bc, :] = 0.0
             dgdmat[:, self.bc] = 0.0
-        dx = np.zeros_like(self.sig_in[0].state)
+        x = np.asarray(self.sig_in[0].state)
+        dx = np.zeros(x.shape, dtype=x.dtype if np.issubdtype(x.dtype, np.inexact) else float)  # Not for integer x
         if isinstance(dgdmat, np.ndarray):
             for i in range(len(dx)):
                 indu, indv = np.meshgrid(self.dofconn[i], self.dofconn[i], indexing='ij')
@@ -374,7 +375,8 @@ class ElementOperation(Module):
 
     def _sensitivity(self, dy):
         du_el = einsum('...k, ...l -> lk', self.element_matrix, dy, optimize=True)
-        du = np.zeros_like(self.sig_in[0].state)
+        u = np.asarray(self.sig_in[0].state)
+        du = np.zeros(u.shape, dtype=u.dtype if np.issubdtype(u.dtype, np.inexact) else float)  # Not for integer u
         np.add.at(du, self.dofconn, du_el)
         return du
 
